@@ -122,16 +122,37 @@ def setup(rec, tier):
 
     def cen_post(s, a, k, res, tok):
         F = facts(s.vertices)
-        rec.close("ConvexPolyhedron.centroid", np.asarray(res, float), F["c"], 1e-9 * F["L"], "ConvexPolyhedron.centroid",
+        rec.close("ConvexPolyhedron.centroid", np.asarray(res, float), F["c"], (1e-12 if F.get("exact") else 1e-9) * F["L"], "ConvexPolyhedron.centroid",
                   lambda: _wit(s))
 
     def it_post(s, a, k, res, tok):
         F = facts(s.vertices)
-        rec.close("ConvexPolyhedron.inertia_tensor", np.asarray(res, float), F["I"], 1e-8 * F["V"] * F["L"] ** 2,
+        # (exactly representable solids: the truth is not rounded and the unchanged code is within 1e-15 of it on every class of
+        # them, so a part in 1e12 of the largest possible entry is already a defect - e.g. a small product of inertia "cleaned" to 0)
+        rec.close("ConvexPolyhedron.inertia_tensor", np.asarray(res, float), F["I"], (1e-12 if F.get("exact") else 1e-8) * F["V"] * F["L"] ** 2,
                   "ConvexPolyhedron.inertia_tensor", lambda: _wit(s))
 
     def _face_sets(s):
         return [frozenset(int(i) for i in f) for f in s.faces]
+
+    def _pieces(s, F, sets):
+        """Faces that are not the band oracle's facets: if they are the exact pieces of facets that are planar only up to
+        the rounding of their coordinates (geom.split_hull), extend the per-face facts by those pieces; else False."""
+        if F.get("exact"):
+            return False
+        key = tuple(sorted(tuple(sorted(st)) for st in sets))
+        if F.get("_pieces_key") != key:
+            V = np.asarray(s.vertices, float)
+            h2 = geom.split_hull(V, F["hull"], [sorted(st) for st in sets])
+            F["_pieces_key"] = key
+            F["_pieces_ok"] = h2 is not None
+            if h2 is not None:
+                rec.cls("face-planar-only-up-to-rounding:reported-in-exact-pieces")
+                fa = geom.mesh_area(V, h2.facets)
+                for f, n, a_ in zip(h2.facets, h2.normals, fa):
+                    F["face_area"].setdefault(frozenset(f), a_)
+                    F["face_cen"].setdefault(frozenset(f), geom.poly3d_exact(V[f], n)["centroid"])
+        return F["_pieces_ok"]
 
     def fa_post(s, a, k, res, tok):
         F = facts(s.vertices)
@@ -151,7 +172,7 @@ def setup(rec, tier):
         got = np.atleast_1d(np.asarray(res, float))
         want = []
         for j in idx:
-            if sets[j] not in F["face_area"]:
+            if sets[j] not in F["face_area"] and not (_pieces(s, F, sets) and sets[j] in F["face_area"]):
                 rec.violation(mon, mon + "/face-is-not-a-hull-facet", lambda: _wit(s, face=sorted(sets[j])))
                 return
             want.append(F["face_area"][sets[j]])
@@ -167,7 +188,7 @@ def setup(rec, tier):
         mon = "ConvexPolyhedron.face_centroids"
         want = []
         for st in sets:
-            if st not in F["face_cen"]:
+            if st not in F["face_cen"] and not (_pieces(s, F, sets) and st in F["face_cen"]):
                 rec.violation(mon, mon + "/face-is-not-a-hull-facet", lambda: _wit(s, face=sorted(st)))
                 return
             want.append(F["face_cen"][st])
